@@ -78,6 +78,7 @@ type Run struct {
 	explain    string
 	exhaustive bool
 	assume     []string
+	relayed    map[string]bool
 }
 
 const distinctCap = 3_000_000
@@ -280,7 +281,7 @@ func (r *Run) Finish() int {
 	cov["verdict"] = verdict
 	if os.Getenv("VERIF_CHILD") != "" {
 		// child process of another check: report on stdout, leave the evidence file to the parent
-		b, _ := json.Marshal(map[string]any{"evaluations": r.evals, "distinct_nontrivial": dn, "violations": r.violations, "counters": r.counters, "extra": r.extra})
+		b, _ := json.Marshal(map[string]any{"evaluations": r.evals, "distinct_nontrivial": dn, "violations": r.violations, "counters": r.counters, "extra": r.extra, "samples": r.samples})
 		fmt.Printf("CHILD-SUMMARY %s\n", b)
 		return code
 	}
@@ -300,3 +301,38 @@ func (r *Run) Finish() int {
 		r.Prop, r.Tier, r.Seed, verdict, r.evals, dn, r.violations, wall)
 	return code
 }
+
+// Relay prints VIOLATION / KNOWN-FINDING blocks produced by child processes, once per class.
+func (r *Run) Relay(blocks []string) {
+	r.mu.Lock()
+	defer r.mu.Unlock()
+	if r.relayed == nil {
+		r.relayed = map[string]bool{}
+	}
+	for _, b := range blocks {
+		key := b
+		for _, line := range strings.Split(b, "\n") {
+			if strings.HasPrefix(line, "  class=") {
+				key = line
+			}
+		}
+		if strings.HasPrefix(b, "KNOWN-FINDING:") {
+			key = strings.SplitN(b, "\n", 2)[0]
+		}
+		if r.relayed[key] {
+			continue
+		}
+		r.relayed[key] = true
+		if strings.HasPrefix(b, "VIOLATION ") {
+			if r.printed >= 40 {
+				continue
+			}
+			r.printed++
+			r.classes[strings.TrimPrefix(key, "  class=")]++
+		}
+		fmt.Println(b)
+	}
+}
+
+// AddViolations accounts for violations observed (and already written out) by child processes.
+func (r *Run) AddViolations(n int) { r.mu.Lock(); r.violations += n; r.mu.Unlock() }
